@@ -4,7 +4,8 @@ From Verif Require Import Common.Base Stream.Model Stream.Spec Stream.Proofs Str
 
 (* However the reader splits the data (any schedule of Read results: any chunk sizes, zero-length reads,
    EOF or a failure delivered with or after the last bytes) and whatever initial buffer size >= 0 is chosen,
-   every contract-respecting history of Peek, Move, Rewind, Skip, Shift, Lexeme, Pos, Free and ShiftLen
+   every contract-respecting history of Peek, PeekRune (on valid UTF-8: the RFC 3629 code point and length;
+   (0,1) at or past the end), Move, Rewind, Skip, Shift, Lexeme, Pos, Free and ShiftLen
    (sspec_run succeeds: moves stay within what Peek has returned, Free releases at most what was shifted)
    runs without panic and without a non-terminating refill, and returns exactly the observations of a cursor
    over the completely read input [delivered sch] — which does not depend on the chunking or the size.
